@@ -248,7 +248,11 @@ theorem semLoopOp_len (ped : Bool) (op : Nat) (vs vs' : List Int) (g g' : G)
   · rw [if_pos hc7] at h; exact hszp _ (Option.some.inj h)
   rw [if_neg hc7] at h
   by_cases hc8 : op = 0x80
-  · rw [if_pos hc8] at h; exact counted_len (Option.some.inj h)
+  · rw [if_pos hc8] at h
+    split at h
+    · have h := Option.some.inj h
+      simp at h; obtain ⟨h1, _⟩ := h; subst h1; exact Nat.le_refl _
+    · exact counted_len (Option.some.inj h)
   rw [if_neg hc8] at h
   by_cases hc9 : op = 0x81 ∨ op = 0x82
   · rw [if_pos hc9] at h
